@@ -33,6 +33,11 @@ type vfSideCfg struct {
 	TSN        uint32   `json:"tsn"`
 	Tag        uint32   `json:"tag,omitempty"`
 	MaxRQ      int      `json:"maxrq,omitempty"`
+	// RACK options (0 = library default): minimum-RTT window, reordering-window floor,
+	// worst-case delayed-ack allowance for the probe timeout
+	RackMinRTTWndMs int `json:"rackminrttwnd,omitempty"`
+	RackReoFloorMs  int `json:"rackreofloor,omitempty"`
+	RackWCDelAckMs  int `json:"rackwcdelack,omitempty"`
 }
 
 func (c *vfSideCfg) mtu() int {
@@ -69,6 +74,11 @@ func (c *vfSideCfg) config(conn *vfConn, lf logging.LoggerFactory, name string) 
 	}
 	cfg.enableInterleaving, cfg.enableInterleavingSet = c.IL, true
 	cfg.maxReassemblyQueueEntries = uint32(c.MaxRQ)
+	if c.RackMinRTTWndMs > 0 {
+		cfg.rack.rackMinRTTWnd = newWindowedMin(time.Duration(c.RackMinRTTWndMs) * time.Millisecond)
+	}
+	cfg.rack.rackReoWndFloor = time.Duration(c.RackReoFloorMs) * time.Millisecond
+	cfg.rack.rackWCDelAck = time.Duration(c.RackWCDelAckMs) * time.Millisecond
 	switch c.Sched {
 	case 1:
 		cfg.interleaving = &interleavingSettings{newStreamScheduler: func() InterleavingStreamScheduler {
